@@ -689,6 +689,18 @@ def get_engine(nd: AstNode) -> sqa.Engine:
     return engine
 
 
+# The pattern of startswith / endswith / contains is data: a python string is escaped by SQLAlchemy (`autoescape`), a
+# constant SQL expression (e.g. `pdt.lit("a") + "%"`) is escaped in SQL.
+def like_operand(y):
+    if isinstance(y, str):
+        return y
+    return sqa.func.replace(sqa.func.replace(sqa.func.replace(y, "/", "//"), "%", "/%"), "_", "/_")
+
+
+def like_escape(y) -> dict:
+    return dict(autoescape=True) if isinstance(y, str) else dict(escape="/")
+
+
 with SqlImpl.impl_store.impl_manager as impl:
     if sqa.__version__ < "2":
 
@@ -764,11 +776,11 @@ with SqlImpl.impl_store.impl_manager as impl:
 
     @impl(ops.str_starts_with)
     def _str_starts_with(x, y):
-        return x.startswith(y, autoescape=True)
+        return x.startswith(like_operand(y), **like_escape(y))
 
     @impl(ops.str_ends_with)
     def _str_ends_with(x, y):
-        return x.endswith(y, autoescape=True)
+        return x.endswith(like_operand(y), **like_escape(y))
 
     @impl(ops.str_slice)
     def _str_slice(x, offset, length):
